@@ -309,4 +309,34 @@ def support(rng, tier):
                 ok_score = False
         res.append((f'theta_unchanged_by_test_only_data_{rep}', ok_theta, dict(n_rdm=int(n_rdm), n_cond=int(n_cond))))
         res.append((f'score_unchanged_by_train_only_data_{rep}', ok_score, dict(n_rdm=int(n_rdm), n_cond=int(n_cond))))
+    # grouped RDMs inside the bootstrap-cross-validation routines (seeded change C05-m9): the folds formed there keep all RDMs
+    # of one descriptor group on one side
+    import rsatoolbox.inference.evaluate as EV
+    for rep in range(3 if tier == 'quick' else 20):
+        n_grp = rs.randint(3, 5)
+        grp = list(range(n_grp)) + [int(x) for x in rs.randint(0, n_grp, size=rs.randint(2, 4))]
+        rs.shuffle(grp)
+        n_cond = 6
+        d = rsatoolbox.rdm.RDMs(rs.rand(len(grp), n_cond * (n_cond - 1) // 2) + 0.1, rdm_descriptors={'subj': [f's{g}' for g in grp]})
+        mfix = rsatoolbox.model.ModelFixed('f', rs.rand(n_cond * (n_cond - 1) // 2) + 0.1)
+        seen_sets = []
+        orig_cv = EV.crossval
+
+        def rec_crossval(models, rdms, train_set, test_set, *a, **kw):
+            seen_sets.append((train_set, test_set))
+            return orig_cv(models, rdms, train_set, test_set, *a, **kw)
+        EV.crossval = rec_crossval
+        try:
+            np.random.seed(rep)
+            for routine in ('bootstrap_crossval', 'eval_dual_bootstrap'):
+                getattr(EV, routine)(mfix, d, method='cosine', k_pattern=1, k_rdm=2, N=3, n_cv=2, rdm_descriptor='subj')
+        finally:
+            EV.crossval = orig_cv
+        ok, detail = True, {}
+        for tr, te in seen_sets:
+            for a, b in zip(tr, te):
+                ga, gb = set(a[0].rdm_descriptors['subj']), set(b[0].rdm_descriptors['subj'])
+                if ga & gb:
+                    ok, detail = False, dict(groups=[f's{g}' for g in grp], train_groups=sorted(ga), test_groups=sorted(gb))
+        res.append((f'bootstrap_crossval_keeps_rdm_groups_together_{rep}', ok and bool(seen_sets), detail))
     return res
